@@ -1362,7 +1362,12 @@ class VM:
                 return ""
             vm._stringifying.append(arr)
             try:
-                return sep.join(array_elem_to_string(elem) for elem in arr._elements)
+                # An element's own toString is script code: the indices of the
+                # start are joined, with what they hold when their turn comes
+                return sep.join(
+                    array_elem_to_string(elem)
+                    for _, elem in visited_elements(missing=True)
+                )
             finally:
                 vm._stringifying.pop()
 
